@@ -19,16 +19,29 @@ theorem lagCov_zero (S : Mat n q ℝ) :
   rw [div_eq_inv_mul]
   rfl
 
-/-- the time series of the optimally persistent patterns are the PCs times the filter patterns in PC space -/
+theorem transposeM_toMatrix {a b : ℕ} (A : Mat a b ℝ) : (transposeM A).toMatrix = (A.toMatrix)ᵀ := by
+  ext i j; simp [transposeM]
+
+/-- the time series of the optimally persistent patterns are the PCs times the filter patterns in PC space, `V = Cinvᵀ Ue` -/
 theorem scores_toMatrix (S : Mat n q ℝ) (C : Mat p q ℝ) (tauMax : ℕ) (Cinv : Mat q q ℝ) (Ue : Mat q k ℝ) (lam : Fin k → ℝ) :
-    (opaFit S C tauMax Cinv Ue lam).scores.toMatrix = S.toMatrix * (Cinv.toMatrix * Ue.toMatrix) := by
-  simp [opaFit]
+    (opaFit S C tauMax Cinv Ue lam).scores.toMatrix = S.toMatrix * ((Cinv.toMatrix)ᵀ * Ue.toMatrix) := by
+  simp [opaFit, transposeM_toMatrix]
+
+/-- the oracle specification of the inverse square root: if `L Lᵀ = C0` (`L = U √s` from the decomposition of `C0`) and
+`Cinv L = 1` (numpy's inverse), then `Cinv` whitens `C0` from the left and its transpose from the right -/
+theorem whitens_of_factor (C0 L Cinv : Matrix (Fin q) (Fin q) ℝ) (hL : L * Lᵀ = C0) (hI : Cinv * L = 1) :
+    Cinv * C0 * Cinvᵀ = 1 := by
+  rw [← hL]
+  calc Cinv * (L * Lᵀ) * Cinvᵀ = (Cinv * L) * (Cinv * L)ᵀ := by
+        simp only [Matrix.transpose_mul, Matrix.mul_assoc]
+    _ = 1 := by rw [hI]; simp
 
 /-- **the score series are mutually uncorrelated with equal norm** on the executable model: if `Cinv` whitens the zero-lag
-covariance (`Cinvᵀ C0 Cinv = 1`, oracle specification of the inverse square root) and the eigenvectors are orthonormal, then
-`PᵀP = (n − 1) · 1` -/
+covariance (`Cinv C0 Cinvᵀ = 1`, see `whitens_of_factor`; NO symmetry of `Cinv` is needed — with two PCs of equal variance the
+decomposition of `C0` is an arbitrary rotation inside the pair and `Cinv` is not symmetric) and the eigenvectors are orthonormal,
+then `PᵀP = (n − 1) · 1` -/
 theorem model_scores_gram (S : Mat n q ℝ) (C : Mat p q ℝ) (tauMax : ℕ) (Cinv : Mat q q ℝ) (Ue : Mat q k ℝ) (lam : Fin k → ℝ)
-    (hn : 1 < n) (hW : (Cinv.toMatrix)ᵀ * (lagCov (ρ := ℝ) S 0).toMatrix * Cinv.toMatrix = 1) (hU : (Ue.toMatrix)ᵀ * Ue.toMatrix = 1) :
+    (hn : 1 < n) (hW : Cinv.toMatrix * (lagCov (ρ := ℝ) S 0).toMatrix * (Cinv.toMatrix)ᵀ = 1) (hU : (Ue.toMatrix)ᵀ * Ue.toMatrix = 1) :
     ((opaFit S C tauMax Cinv Ue lam).scores.toMatrix)ᵀ * (opaFit S C tauMax Cinv Ue lam).scores.toMatrix
       = (((n - 1 : ℕ) : ℝ)) • (1 : Matrix (Fin k) (Fin k) ℝ) := by
   have hne : (((n - 1 : ℕ) : ℝ)) ≠ 0 := by
@@ -37,26 +50,26 @@ theorem model_scores_gram (S : Mat n q ℝ) (C : Mat p q ℝ) (tauMax : ℕ) (Ci
   rw [scores_toMatrix]
   have hSS : (S.toMatrix)ᵀ * S.toMatrix = (((n - 1 : ℕ) : ℝ)) • (lagCov (ρ := ℝ) S 0).toMatrix := by
     rw [lagCov_zero, smul_smul, mul_inv_cancel₀ hne, one_smul]
-  calc (S.toMatrix * (Cinv.toMatrix * Ue.toMatrix))ᵀ * (S.toMatrix * (Cinv.toMatrix * Ue.toMatrix))
-      = (Ue.toMatrix)ᵀ * ((Cinv.toMatrix)ᵀ * ((S.toMatrix)ᵀ * S.toMatrix) * Cinv.toMatrix) * Ue.toMatrix := by
-        simp only [Matrix.transpose_mul, Matrix.mul_assoc]
-    _ = (((n - 1 : ℕ) : ℝ)) • ((Ue.toMatrix)ᵀ * ((Cinv.toMatrix)ᵀ * (lagCov (ρ := ℝ) S 0).toMatrix * Cinv.toMatrix) * Ue.toMatrix) := by
+  calc (S.toMatrix * ((Cinv.toMatrix)ᵀ * Ue.toMatrix))ᵀ * (S.toMatrix * ((Cinv.toMatrix)ᵀ * Ue.toMatrix))
+      = (Ue.toMatrix)ᵀ * (Cinv.toMatrix * ((S.toMatrix)ᵀ * S.toMatrix) * (Cinv.toMatrix)ᵀ) * Ue.toMatrix := by
+        simp only [Matrix.transpose_mul, Matrix.transpose_transpose, Matrix.mul_assoc]
+    _ = (((n - 1 : ℕ) : ℝ)) • ((Ue.toMatrix)ᵀ * (Cinv.toMatrix * (lagCov (ρ := ℝ) S 0).toMatrix * (Cinv.toMatrix)ᵀ) * Ue.toMatrix) := by
         rw [hSS]; simp only [Matrix.mul_smul, Matrix.smul_mul]
     _ = _ := by rw [hW, Matrix.mul_one, hU]
 
-/-- the matrix handed to the symmetric eigen-solver IS symmetric whenever `Cinv` is (it is diagonal up to signs for PCA scores) -/
-theorem model_target_symmetric (Cinv M : Mat q q ℝ) (hC : (Cinv.toMatrix)ᵀ = Cinv.toMatrix) :
+/-- the matrix handed to the symmetric eigen-solver IS symmetric, for EVERY `Cinv` (before the repair 5ec1b91 this needed `Cinv`
+itself to be symmetric, which fails when two retained PCs have equal variance) -/
+theorem model_target_symmetric (Cinv M : Mat q q ℝ) :
     ((opaTarget (ρ := ℝ) Cinv M).toMatrix)ᵀ = (opaTarget (ρ := ℝ) Cinv M).toMatrix := by
-  have hT : (transposeM M).toMatrix = (M.toMatrix)ᵀ := by ext i j; simp [transposeM]
   have hform : (opaTarget (ρ := ℝ) Cinv M).toMatrix
-      = (Cinv.toMatrix * (M.toMatrix + (M.toMatrix)ᵀ) * Cinv.toMatrix) * diagonal (fun _ : Fin q => ((1 : ℝ) / 2)) := by
-    simp only [opaTarget, toMatrix_scaleCols, toMatrix_mul, toMatrix_add, hT, Entry.ofReal_eq, Num.ofNat_real]
+      = (Cinv.toMatrix * (M.toMatrix + (M.toMatrix)ᵀ) * (Cinv.toMatrix)ᵀ) * diagonal (fun _ : Fin q => ((1 : ℝ) / 2)) := by
+    simp only [opaTarget, toMatrix_scaleCols, toMatrix_mul, toMatrix_add, transposeM_toMatrix, Entry.ofReal_eq, Num.ofNat_real]
     norm_num
   have hd : diagonal (fun _ : Fin q => ((1 : ℝ) / 2)) = ((1 : ℝ) / 2) • (1 : Matrix (Fin q) (Fin q) ℝ) := by
     ext i j; by_cases h : i = j <;> simp [h, Matrix.one_apply]
   rw [hform, hd, Matrix.mul_smul, Matrix.mul_one, Matrix.transpose_smul]
   congr 1
-  simp only [Matrix.transpose_mul, Matrix.transpose_add, Matrix.transpose_transpose, hC, Matrix.mul_assoc]
+  simp only [Matrix.transpose_mul, Matrix.transpose_add, Matrix.transpose_transpose, Matrix.mul_assoc]
   rw [add_comm]
 
 end XP.OpaM
